@@ -5,13 +5,14 @@ import (
 	"go/types"
 	"regexp"
 	"sort"
+	"strings"
 
 	"golang.org/x/tools/go/ssa"
 )
 
 func init() { drivers["C04"] = checkC04 }
 
-var c04Names = regexp.MustCompile(`^(UnmarshalJSON|UnmarshalText|UnmarshalBinary|GobDecode|JSON(Get|Load|Items|Unmarshal)\w*|asIRI|unmap\w+|gobDecode\w*|tryDecode\w*|GetItemByType)$`)
+var c04Names = regexp.MustCompile(`^(UnmarshalJSON|UnmarshalText|UnmarshalBinary|GobDecode|JSON(Get|Load|Items|Unmarshal)\w*|asIRI|unmap\w+|gobDecode\w*|tryDecode\w*)$`)
 
 func decoderFunctions(w *World) []*ssa.Function {
 	var fns []*ssa.Function
@@ -47,83 +48,328 @@ func (ex *Exec) freshResults(sig *types.Signature, tag string) Value {
 	return tv
 }
 
+const fastjsonValuePtr = "*github.com/valyala/fastjson.Value"
+
+func isNilableParam(t types.Type) bool {
+	return classify(t) == KPtr || t.String() == fastjsonValuePtr
+}
+
+type c04Site struct {
+	callee string
+	param  int
+	c      *Term
+	pos    string
+}
+
+type c04Run struct {
+	ex    *Exec
+	pre   []*Term
+	sites []c04Site
+}
+
+// c04Exec runs fn with arbitrary arguments; nilParam >= 0 makes that parameter nil. Members of the decoder
+// family are used by contract: with their preconditions met (needs) they return without panicking,
+// having written anything to what their pointer arguments point to.
+func c04Exec(w *World, fn *ssa.Function, family map[string]*ssa.Function, nilParam int) *c04Run {
+	r := &c04Run{ex: w.NewExec()}
+	ex := r.ex
+	ex.autoInv = true
+	name := fnName(fn)
+	for g := range family {
+		g := g
+		if g == name {
+			continue
+		}
+		ex.hooks[g] = func(ex *Exec, st *State, f *ssa.Function, a []Value) (Value, bool) {
+			for i, v := range a {
+				switch p := v.(type) {
+				case *PtrVal:
+					if f.Params[i].Type().String() == fastjsonValuePtr {
+						continue
+					}
+					elem := f.Params[i].Type().Underlying().(*types.Pointer).Elem()
+					live := &PtrVal{}
+					for _, al := range p.Alts {
+						if al.O == nil {
+							r.sites = append(r.sites, c04Site{g, i, And(st.pc, al.C), ex.pos(f.Pos())})
+						} else {
+							live.Alts = append(live.Alts, al)
+						}
+					}
+					if len(live.Alts) > 0 {
+						ex.objSeq++
+						ex.store(st, live, ex.symValue(elem, varNamer(fmt.Sprintf("decoded!%d", ex.objSeq)), false), f.Pos())
+					}
+				case *Term:
+					if p.S == jvSort {
+						r.sites = append(r.sites, c04Site{g, i, And(st.pc, Eq(p, jvNil)), ex.pos(f.Pos())})
+					}
+				}
+			}
+			return ex.freshResults(f.Signature, "dec:"+g), true
+		}
+	}
+	// list operations proved on their own (C13, C19): used by contract (no panic, receiver updated)
+	for _, g := range []string{"(*ItemCollection).Append", "(*IRIs).Append", "(*NaturalLanguageValues).Append", "(*OrderedCollection).Append", "(*Collection).Append", "(*CollectionPage).Append", "(*OrderedCollectionPage).Append"} {
+		g := g
+		ex.hooks[g] = func(ex *Exec, st *State, f *ssa.Function, a []Value) (Value, bool) {
+			if p, ok := a[0].(*PtrVal); ok {
+				elem := f.Params[0].Type().Underlying().(*types.Pointer).Elem()
+				ex.objSeq++
+				ex.store(st, p, ex.symValue(elem, varNamer(fmt.Sprintf("appended!%d", ex.objSeq)), false), f.Pos())
+			}
+			return ex.freshResults(f.Signature, "app:"+g), true
+		}
+	}
+	st := newState()
+	var args []Value
+	for i, p := range fn.Params {
+		t := p.Type()
+		switch {
+		case i == nilParam && t.String() == fastjsonValuePtr:
+			args = append(args, jvNil)
+		case i == nilParam:
+			args = append(args, &PtrVal{Alts: []PtrAlt{{C: TTrue}}})
+		case classify(t) == KPtr && t.String() != fastjsonValuePtr:
+			args = append(args, ex.calleeVisibleArg(t, p.Name()))
+		default:
+			v := ex.symValue(t, varNamer(p.Name()), false)
+			if tv, ok := v.(*Term); ok && tv.S == jvSort {
+				r.pre = append(r.pre, Neq(tv, jvNil))
+			}
+			args = append(args, v)
+		}
+	}
+	ex.Call(st, fn, args, nil)
+	return r
+}
+
 func checkC04(w *World, c *Check) {
 	c.Exhaustive = true
+	c.Trusted = append(c.Trusted,
+		"assumed contract of github.com/valyala/fastjson: Parse/ParseBytes return a non-nil value or an error in time linear in the input and refuse nesting deeper than its MaxDepth (300); accessors Get/GetStringBytes/GetArray/GetInt*/GetFloat64/GetBool/Exists are nil-safe and never panic, Type/Bool/Object dereference their receiver; array elements are non-nil",
+		"assumed contract of encoding/gob, time.Time.UnmarshalText/UnmarshalBinary, time.ParseDuration, net/url.Parse*, strings.*, bytes.*: they return a value or an error for every input and do not panic",
+		"list operations Append of ItemCollection/IRIs/NaturalLanguageValues/collections are used by their contract proved in C13/C19 (no panic)",
+		"go/types + go/ssa (x/tools v0.29.0); SMT solvers' unsat answers")
+	c.Assume = append(c.Assume,
+		"modular no-panic proof over the decoder family (every function/method named UnmarshalJSON, UnmarshalText, UnmarshalBinary, GobDecode, JSONGet*/JSONLoad*/JSONItemsFn/JSONUnmarshal*, asIRI, unmap*Properties, gobDecode*, tryDecode*, found by scanning the package): each body is executed on arbitrary bytes / an arbitrary parsed value / an arbitrary property map and non-nil targets, with the other members used by contract; every potential panic of the body (index, slice bounds, nil dereference, nil map/interface, failed assertion, negative make) is an obligation, and every internal call site must meet the callee's precondition",
+		"preconditions are derived, not written: a pointer or *fastjson.Value parameter is allowed to be nil when the body run with nil there has no feasible panic and passes nil on to no callee that needs a value (greatest fixpoint over the family); otherwise the parameter must be non-nil and every call site inside the package is an obligation. Exported helpers called directly with a nil they cannot take are outside the statement (inputs are byte strings)",
+		"NOT decided: the 'time and memory proportional to the input' and 'never recurses without bound' clauses beyond: recursion happens only through family members on a strictly nested JSON value (depth bounded by the parser's limit) or a strictly shorter nested gob byte string — an on-paper argument; loops of the family range over parsed arrays/maps. The follow-up clause (decoded values can be compared/re-encoded/formatted without panic) is covered only as far as C20's nil-like matrix and C12's sweep execute those operations on arbitrary values")
 	fns := decoderFunctions(w)
-	family := map[string]bool{}
+	family := map[string]*ssa.Function{}
 	for _, f := range fns {
-		family[fnName(f)] = true
+		family[fnName(f)] = f
+	}
+	// ---- derive nil tolerance (greatest fixpoint, optimistic start) ----
+	type key struct {
+		fn    string
+		param int
+	}
+	needs := map[key]bool{}
+	nilRuns := map[key]*c04Run{}
+	var derivErr error
+	func() {
+		defer func() {
+			if r := recover(); r != nil {
+				derivErr = fmt.Errorf("%v", r)
+			}
+		}()
+		for round := 0; round < 6; round++ {
+			changed := false
+			for _, fn := range fns {
+				for i, p := range fn.Params {
+					k := key{fnName(fn), i}
+					if !isNilableParam(p.Type()) || needs[k] {
+						continue
+					}
+					run := nilRuns[k]
+					if run == nil {
+						func() {
+							defer func() {
+								if r := recover(); r != nil {
+									run = nil
+								}
+							}()
+							run = c04Exec(w, fn, family, i)
+						}()
+						if run == nil {
+							needs[k] = true // cannot be executed with nil: require a value
+							changed = true
+							continue
+						}
+						nilRuns[k] = run
+					}
+					bad := false
+					for _, pn := range run.ex.panics {
+						if run.ex.feasible(And(append([]*Term{pn.C}, run.pre...)...)) {
+							bad = true
+							break
+						}
+					}
+					if !bad {
+						for _, s := range run.sites {
+							if needs[key{s.callee, s.param}] && run.ex.feasible(And(append([]*Term{s.c}, run.pre...)...)) {
+								bad = true
+								break
+							}
+						}
+					}
+					if bad {
+						needs[k] = true
+						delete(nilRuns, k)
+						changed = true
+					}
+				}
+			}
+			if !changed {
+				break
+			}
+		}
+	}()
+	if derivErr != nil {
+		c.Add(&Obligation{Name: "C04/preconditions", EngineErr: derivErr.Error()})
+		return
+	}
+	var needList []string
+	for k := range needs {
+		needList = append(needList, fmt.Sprintf("%s#%d", k.fn, k.param))
+	}
+	sort.Strings(needList)
+	c.Notes = append(c.Notes, fmt.Sprintf("derived preconditions (parameter must be non-nil): %v", needList))
+
+	emit := func(grp, name string, run *c04Run) {
+		ex := run.ex
+		bound := 0
+		if ex.bounded {
+			bound = ex.symLoopBound
+		}
+		common := append(append([]*Term(nil), run.pre...), ex.assumes...)
+		for i, pn := range ex.panics {
+			c.Add(&Obligation{Name: fmt.Sprintf("%s/nopanic/%s#%d", grp, pn.Kind, i), Group: grp, Common: common, Goal: Not(pn.C), Pos: pn.Pos, Funcs: []string{name}, Bounded: bound, Replay: c04Replay})
+		}
+		for _, so := range ex.sideObls {
+			c.Add(&Obligation{Name: fmt.Sprintf("%s/loop/%s", grp, so.Name), Group: grp, Common: common, Hyps: []*Term{so.Hyp}, Goal: so.Goal, Pos: so.Pos, Funcs: []string{name}, Bounded: bound})
+		}
+		// memory: a buffer sized by a number read from the input must be bounded by the size of some input
+		if len(ex.allocs) > 0 {
+			var lens []*Term
+			seenT := map[*Term]bool{}
+			var walk func(t *Term)
+			walk = func(t *Term) {
+				if seenT[t] {
+					return
+				}
+				seenT[t] = true
+				if t.Op == "app" && (t.Name == "blen" || t.Name == "slen" || t.Name == "jlen") {
+					lens = append(lens, t)
+				}
+				if t.Op == "var" && strings.HasSuffix(t.Name, "#len") {
+					lens = append(lens, t)
+				}
+				for _, a := range t.Args {
+					walk(a)
+				}
+			}
+			for _, al := range ex.allocs {
+				walk(al.C)
+				walk(al.Cap)
+			}
+			for i, al := range ex.allocs {
+				alts := []*Term{Le(al.Cap, IntLit(4096))}
+				for _, l := range lens {
+					alts = append(alts, Le(al.Cap, Add(Mul(IntLit(2), l), IntLit(64))))
+				}
+				c.Add(&Obligation{Name: fmt.Sprintf("%s/alloc-bounded-by-input#%d", grp, i), Group: grp, Common: common, Hyps: []*Term{al.C}, Goal: Or(alts...), Pos: al.Pos, Funcs: []string{name}, Bounded: bound})
+			}
+		}
+		n := 0
+		for _, s := range run.sites {
+			if !needs[key{s.callee, s.param}] {
+				continue
+			}
+			n++
+			c.Add(&Obligation{Name: fmt.Sprintf("%s/callee-precondition/%s#%d/site%d", grp, s.callee, s.param, n), Group: grp, Common: common, Goal: Not(s.c), Pos: s.pos, Funcs: []string{name, s.callee}, Bounded: bound, Replay: c04Replay})
+		}
+		for _, n := range sortedNotes(ex) {
+			if strings.Contains(n, "external") || strings.Contains(n, "opaque") {
+				c.Notes = appendUnique(c.Notes, n)
+			}
+		}
+		c.Add(&Obligation{Name: grp + "/returns", Group: grp, Common: common, Goal: TTrue, Pos: ex.pos(run.ex.pkg.Func("UnmarshalJSON").Pos()), Funcs: []string{name}, Bounded: bound})
 	}
 	for _, fn := range fns {
 		fn := fn
 		name := fnName(fn)
-		grp := "C04/" + name
-		guard(c, grp, func() {
-			ex := w.NewExec()
-			type nilArg struct {
-				callee string
-				c      *Term
-				pos    string
-			}
-			var nilArgs []nilArg
-			for g := range family {
-				g := g
-				ex.hooks[g] = func(ex *Exec, st *State, f *ssa.Function, a []Value) (Value, bool) {
-					// callee contract: for non-nil targets and any input it returns without panicking, having written
-					// anything to what its pointer arguments point to
-					for i, v := range a {
-						switch p := v.(type) {
-						case *PtrVal:
-							elem := f.Params[i].Type().Underlying().(*types.Pointer).Elem()
-							for _, al := range p.Alts {
-								if al.O == nil {
-									nilArgs = append(nilArgs, nilArg{g, And(st.pc, al.C), ex.pos(f.Pos())})
-								}
-							}
-							ex.objSeq++
-							ex.store(st, p, ex.symValue(elem, varNamer(fmt.Sprintf("decoded!%d", ex.objSeq)), false), f.Pos())
-						case *Term:
-							if p.S == jvSort && c04NeedsValue[g] {
-								nilArgs = append(nilArgs, nilArg{g, And(st.pc, Eq(p, jvNil)), ex.pos(f.Pos())})
-							}
-						}
-					}
-					return ex.freshResults(f.Signature, "dec:"+g), true
-				}
-			}
-			delete(ex.hooks, name)
-			st := newState()
-			var args []Value
-			var pre []*Term
-			for _, p := range fn.Params {
-				t := p.Type()
-				switch {
-				case classify(t) == KPtr && t.String() != "*github.com/valyala/fastjson.Value":
-					args = append(args, ex.calleeVisibleArg(t, p.Name()))
-				default:
-					v := ex.symValue(t, varNamer(p.Name()), false)
-					if tv, ok := v.(*Term); ok && tv.S == jvSort && c04NeedsValue[name] {
-						pre = append(pre, Neq(tv, jvNil))
-					}
-					args = append(args, v)
-				}
-			}
-			ex.Call(st, fn, args, nil)
-			bound := 0
-			if ex.bounded {
-				bound = ex.symLoopBound
-			}
-			common := append(pre, ex.assumes...)
-			for i, pn := range ex.panics {
-				c.Add(&Obligation{Name: fmt.Sprintf("%s/nopanic/%s#%d", grp, pn.Kind, i), Group: grp, Common: common, Goal: Not(pn.C), Pos: pn.Pos, Funcs: []string{name}, Bounded: bound})
-			}
-			for i, na := range nilArgs {
-				c.Add(&Obligation{Name: fmt.Sprintf("%s/callee-precondition/%s#%d", grp, na.callee, i), Group: grp, Common: common, Goal: Not(na.c), Pos: na.pos, Funcs: []string{name, na.callee}, Bounded: bound})
-			}
-			c.Add(&Obligation{Name: grp + "/returns", Group: grp, Common: common, Goal: TTrue, Pos: ex.pos(fn.Pos()), Funcs: []string{name}, Bounded: bound})
+		guard(c, "C04/"+name, func() {
+			emit("C04/"+name, name, c04Exec(w, fn, family, -1))
 		})
+		for i := range fn.Params {
+			if run := nilRuns[key{name, i}]; run != nil {
+				i := i
+				grp := fmt.Sprintf("C04/%s/nil-arg%d", name, i)
+				guard(c, grp, func() { emit(grp, name, run) })
+			}
+		}
 	}
 }
 
-// functions whose *fastjson.Value argument must not be nil (they dereference it; every call site is checked)
-var c04NeedsValue = map[string]bool{}
+func c04Replay(map[string]string) string {
+	return `package activitypub
+
+import (
+	"fmt"
+	"testing"
+)
+
+func TestVerifReplay(t *testing.T) {
+	inputs := [][]byte{nil, {}, []byte("\""), []byte("\"\""), []byte("\"a"), []byte("a\""), []byte("{"), []byte("{}"), []byte("[]"), []byte("[{}]"), []byte("null"), []byte("0"), []byte("\"x\""),
+		[]byte("{\"type\":\"Note\",\"name\":{\"en\":1},\"content\":[1,2],\"to\":{\"to\":1},\"tag\":[null,1,\"x\",{}]}"), {0}, {0xff, 0xfe}, []byte("-"),
+		[]byte("{\"type\":\"Person\",\"endpoints\":1,\"publicKey\":[],\"inbox\":[[[]]]}"), []byte("{\"type\":\"Create\",\"object\":{\"type\":\"Note\",\"object\":null},\"actor\":[\"\"]}")}
+	type dec struct {
+		name string
+		f    func([]byte) error
+	}
+	var ds []dec
+	add := func(name string, f func([]byte) error) { ds = append(ds, dec{name, f}) }
+	add("UnmarshalJSON", func(b []byte) error { _, err := UnmarshalJSON(b); return err })
+	add("GobDecode", func(b []byte) error { _, err := GobDecode(b); return err })
+	add("NaturalLanguageValues.UnmarshalText", func(b []byte) error { var n NaturalLanguageValues; return n.UnmarshalText(b) })
+	add("NaturalLanguageValues.UnmarshalJSON", func(b []byte) error { var n NaturalLanguageValues; return n.UnmarshalJSON(b) })
+	add("NaturalLanguageValues.GobDecode", func(b []byte) error { var n NaturalLanguageValues; return n.GobDecode(b) })
+	add("LangRefValue.UnmarshalText", func(b []byte) error { var n LangRefValue; return n.UnmarshalText(b) })
+	add("LangRefValue.UnmarshalJSON", func(b []byte) error { var n LangRefValue; return n.UnmarshalJSON(b) })
+	add("LangRef.UnmarshalText", func(b []byte) error { var n LangRef; return n.UnmarshalText(b) })
+	add("Content.UnmarshalText", func(b []byte) error { var n Content; return n.UnmarshalText(b) })
+	add("IRI.UnmarshalJSON", func(b []byte) error { var n IRI; return n.UnmarshalJSON(b) })
+	add("IRIs.UnmarshalJSON", func(b []byte) error { var n IRIs; return n.UnmarshalJSON(b) })
+	add("Object.UnmarshalJSON", func(b []byte) error { var n Object; return n.UnmarshalJSON(b) })
+	add("Actor.UnmarshalJSON", func(b []byte) error { var n Actor; return n.UnmarshalJSON(b) })
+	add("Activity.UnmarshalJSON", func(b []byte) error { var n Activity; return n.UnmarshalJSON(b) })
+	add("Question.UnmarshalJSON", func(b []byte) error { var n Question; return n.UnmarshalJSON(b) })
+	add("Link.UnmarshalJSON", func(b []byte) error { var n Link; return n.UnmarshalJSON(b) })
+	add("Place.UnmarshalJSON", func(b []byte) error { var n Place; return n.UnmarshalJSON(b) })
+	add("OrderedCollectionPage.UnmarshalJSON", func(b []byte) error { var n OrderedCollectionPage; return n.UnmarshalJSON(b) })
+	add("PublicKey.UnmarshalJSON", func(b []byte) error { var n PublicKey; return n.UnmarshalJSON(b) })
+	add("MimeType.UnmarshalJSON", func(b []byte) error { var n MimeType; return n.UnmarshalJSON(b) })
+	add("Object.GobDecode", func(b []byte) error { var n Object; return n.GobDecode(b) })
+	add("Actor.GobDecode", func(b []byte) error { var n Actor; return n.GobDecode(b) })
+	add("Activity.GobDecode", func(b []byte) error { var n Activity; return n.GobDecode(b) })
+	add("Link.GobDecode", func(b []byte) error { var n Link; return n.GobDecode(b) })
+	add("IRI.GobDecode", func(b []byte) error { var n IRI; return n.GobDecode(b) })
+	add("IRIs.GobDecode", func(b []byte) error { var n IRIs; return n.GobDecode(b) })
+	add("Object.UnmarshalBinary", func(b []byte) error { var n Object; return n.UnmarshalBinary(b) })
+	for _, d := range ds {
+		for _, in := range inputs {
+			func() {
+				defer func() {
+					if r := recover(); r != nil {
+						t.Errorf("%s(%q) panicked: %v", d.name, in, fmt.Sprint(r))
+					}
+				}()
+				_ = d.f(in)
+			}()
+		}
+	}
+}
+`
+}
